@@ -576,7 +576,7 @@ string_converter = StringConverter()
 
 class DateConverter(JsonConverter[datetime.date, np.datetime64]):
     def __init__(self) -> None:
-        super().__init__(np.datetime64)
+        super().__init__(np.dtype("datetime64[D]"))
 
     def to_json(self, value: datetime.date) -> object:
         if not isinstance(value, datetime.date):
@@ -598,7 +598,7 @@ date_converter = DateConverter()
 
 class TimeConverter(JsonConverter[Time, np.timedelta64]):
     def __init__(self) -> None:
-        super().__init__(np.timedelta64)
+        super().__init__(np.dtype("timedelta64[ns]"))
 
     def to_json(self, value: Time) -> object:
         if isinstance(value, Time):
@@ -623,7 +623,7 @@ time_converter = TimeConverter()
 
 class DateTimeConverter(JsonConverter[DateTime, np.datetime64]):
     def __init__(self) -> None:
-        super().__init__(np.datetime64)
+        super().__init__(np.dtype("datetime64[ns]"))
 
     def to_json(self, value: DateTime) -> object:
         if isinstance(value, DateTime):
